@@ -8,7 +8,10 @@
 //!      mock transport in segments of 1 / 5 / 13 / all bytes that answers "not ready" (Pending) on every
 //!      other poll, with caller buffers of 1 / 2 / 64 bytes: reading until 0 returns exactly the payload and
 //!      `read_buffer` ++ transport holds exactly the bytes that follow the message.
-//! Skipped (never failed) where the sandbox has no loopback TCP (part a only).
+//!  (c) the asynchronous writer under back-pressure: 8-24 MiB payloads (larger than the loopback socket buffers) written in
+//!      chunks that do not line up with the PDU data length to an acceptor that starts reading late and reads slowly, so that
+//!      the transport accepts PDUs only in part and answers "not ready" in between.
+//! Skipped (never failed) where the sandbox has no loopback TCP (parts a and c only).
 use bytes::BytesMut;
 use dicom_ul::association::client::ClientAssociationOptions;
 use dicom_ul::association::server::ServerAssociationOptions;
@@ -161,5 +164,77 @@ fn main() {
         if problem.is_none() && got != *payload { problem = Some(format!("the values concatenate to {} bytes that differ from the {} bytes sent", got.len(), payload.len())); }
         if let Some(p) = problem { t.fail(format!("{}: {} (PDU lengths {:?})", label, p, pdus.iter().map(|x| x.0).collect::<Vec<_>>())); }
     }
+    backpressure(&rt, &mut t);
     println!("EXHAUSTIVE unit=C26.async cases={} mismatches={}", t.cases, t.bad);
+}
+
+/// (c) the asynchronous writer under BACK-PRESSURE: payloads larger than the loopback socket buffers, written in chunks that do not line
+/// up with the PDU data length, to an acceptor that does not read for 1.5 s and then reads slowly — the TCP transport accepts PDUs only in
+/// part and answers "not ready" in between. Every PDU received is checked and the values must concatenate to the payload.
+fn backpressure(rt: &tokio::runtime::Runtime, t: &mut Tally) {
+    let runs: Vec<(u32, usize, Vec<usize>)> = vec![
+        (MINIMUM_PDU_SIZE, 12 << 20, vec![20_000, 5_000, 777, 1, 16_378, 33_000, 4_096]),
+        (16_384, 24 << 20, vec![20_000, 5_000, 777, 1, 16_378, 33_000, 4_096]),
+        (MINIMUM_PDU_SIZE, 8 << 20, vec![1_017, 3, 500, 2_000, 1_018, 1_019]),
+    ];
+    for (max, total, chunks) in runs {
+        t.cases += 1;
+        let label = format!("asynchronous writer under back-pressure: payload of {} bytes, maximum PDU length {}, write chunks {:?} in rotation", total, max, chunks);
+        let listener = match std::net::TcpListener::bind("127.0.0.1:0") { Ok(l) => l, Err(_) => return };
+        let addr = listener.local_addr().unwrap();
+        let server = std::thread::spawn(move || -> Result<(Vec<u8>, Option<String>, u8), String> {
+            let (stream, _) = listener.accept().map_err(|e| e.to_string())?;
+            let mut assoc = ServerAssociationOptions::new().accept_any().with_abstract_syntax(ABSTRACT).max_pdu_length(max).establish(stream).map_err(|e| e.to_string())?;
+            std::thread::sleep(std::time::Duration::from_millis(1500));
+            let (mut got, mut problem, mut pdus, mut ctx, mut done) = (Vec::new(), None, 0usize, 0u8, false);
+            loop {
+                match assoc.receive().map_err(|e| e.to_string())? {
+                    Pdu::PData { data } => {
+                        pdus += 1;
+                        if done && problem.is_none() { problem = Some(format!("PDU {} follows the value marked last", pdus)); }
+                        if data.len() != 1 && problem.is_none() { problem = Some(format!("PDU {} carries {} values", pdus, data.len())); }
+                        for v in data {
+                            if v.data.len() + 6 > max as usize && problem.is_none() { problem = Some(format!("PDU {} has length {} > maximum {}", pdus, v.data.len() + 6, max)); }
+                            if ctx == 0 { ctx = v.presentation_context_id; } else if ctx != v.presentation_context_id && problem.is_none() { problem = Some(format!("PDU {} is for presentation context {}", pdus, v.presentation_context_id)); }
+                            got.extend_from_slice(&v.data);
+                            if v.is_last { done = true; }
+                        }
+                        if pdus % 64 == 0 { std::thread::sleep(std::time::Duration::from_millis(2)); }
+                    }
+                    Pdu::ReleaseRQ => { let _ = assoc.send(&Pdu::ReleaseRP); break; }
+                    other => return Err(format!("unexpected PDU {}", other.short_description())),
+                }
+            }
+            if !done && problem.is_none() { problem = Some("no value was marked last".to_string()); }
+            Ok((got, problem, ctx))
+        });
+        let payload: Vec<u8> = (0..total as u32).map(|i| (i ^ (i >> 8) ^ (i >> 16)).wrapping_mul(31) as u8).collect();
+        let sent_ctx = rt.block_on(async {
+            let mut client = match ClientAssociationOptions::new().with_abstract_syntax(ABSTRACT).establish_async(addr).await { Ok(c) => c, Err(_) => return None };
+            let ctx = client.presentation_contexts()[0].id;
+            let mut err = None;
+            {
+                let mut w = client.send_pdata(ctx);
+                let (mut pos, mut k) = (0usize, 0usize);
+                while pos < payload.len() {
+                    let c = chunks[k % chunks.len()].min(payload.len() - pos);
+                    if let Err(e) = w.write_all(&payload[pos..pos + c]).await { err = Some(e.to_string()); break; }
+                    pos += c; k += 1;
+                }
+                if err.is_none() { if let Err(e) = w.finish().await { err = Some(e.to_string()); } }
+            }
+            let _ = client.release().await;
+            Some((ctx, err))
+        });
+        let (sent_ctx, err) = match sent_ctx { Some(x) => x, None => { let _ = server.join(); t.cases -= 1; continue; } };
+        if let Some(e) = err { t.fail(format!("{}: the writer failed: {}", label, e)); let _ = server.join(); continue; }
+        match server.join() {
+            Ok(Ok((got, problem, ctx))) => {
+                if let Some(p) = problem { t.fail(format!("{}: {}", label, p)); }
+                else if ctx != sent_ctx { t.fail(format!("{}: values for presentation context {} instead of {}", label, ctx, sent_ctx)); }
+                else if got != payload { t.fail(format!("{}: {} bytes received, {} sent; first difference at offset {:?}", label, got.len(), payload.len(), got.iter().zip(payload.iter()).position(|(a, b)| a != b))); }
+            }
+            other => t.fail(format!("{}: acceptor side failed: {:?}", label, other.map(|r| r.map(|_| ())).map_err(|_| "panic"))),
+        }
+    }
 }
